@@ -29,6 +29,15 @@ Definition precond_init (ident : bool) (d : Data) : Precond :=
 
 Section Ruiz.
 Variable K : Consts.
+(* sparse/preconditioner.hpp differs from the dense code in the fresh branch of scale_data in two places that matter
+   (the model works on the dense form of the matrices, everything else is arithmetically identical):
+   (i)  delta_iter_lb / delta_iter_ub (= the memory of delta_lb_inv / delta_ub_inv) are NOT zeroed before the loop,
+        they still hold the previous inverses;
+   (ii) when scale_cost is set, delta_lb_inv -- the same memory as delta_iter_lb -- is the scratch vector of the cost
+        scaling (delta_iter_cost(j) = max |entry| over column j and row j of the already scaled upper-triangular P,
+        computed before P is multiplied by gamma), so the loop guard of the NEXT iteration reads it.
+   sparse_quirk = true reproduces (i) and (ii); sparse_quirk = false is the dense code. *)
+Variable sparse_quirk : bool.
 
 Definition limit_scaling (d : F) : F :=
   if qltb d (k_min_scaling K) then 1 else if qltb (k_max_scaling K) d then k_max_scaling K else d.
@@ -105,7 +114,11 @@ Definition ruiz_iter (scale_cost : bool) (st : ruiz_st) : res ruiz_st :=
   Ok {| rz_d := d <| d_P := P2 |> <| d_c := c2 |> <| d_AT := AT1 |> <| d_GT := GT1 |>
                   <| d_lb_scaling := lbs1 |> <| d_ub_scaling := ubs1 |>;
         rz_pc := pc <| pc_c := cc |> <| pc_delta := delta1 |> <| pc_delta_lb := dlb1 |> <| pc_delta_ub := dub1 |>;
-        rz_it := it1; rz_it_lb := it_lb1; rz_it_ub := it_ub1 |}.
+        rz_it := it1;
+        rz_it_lb := (if sparse_quirk && scale_cost
+                     then map (fun k => qmax (P_col_head_norm P1 k) (P_row_tail_norm P1 k)) (seq 0 n)
+                     else it_lb1);
+        rz_it_ub := it_ub1 |}.
 
 Fixpoint ruiz_loop (fuel : nat) (scale_cost : bool) (st : ruiz_st) : res ruiz_st :=
   match fuel with
@@ -144,7 +157,9 @@ Definition ruiz_scale_data (pc0 : Precond) (d : Data) (reuse scale_cost : bool) 
   else
     let pc1 := pc <| pc_c := 1 |> <| pc_delta := vconst (n + p + m) 1 |>
                   <| pc_delta_lb := vconst n 1 |> <| pc_delta_ub := vconst n 1 |> in
-    let st0 := {| rz_d := d; rz_pc := pc1; rz_it := vconst (n + p + m) 0; rz_it_lb := vconst n 0; rz_it_ub := vconst n 0 |} in
+    let st0 := {| rz_d := d; rz_pc := pc1; rz_it := vconst (n + p + m) 0;
+                  rz_it_lb := (if sparse_quirk then pc_delta_lb_inv pc else vconst n 0);
+                  rz_it_ub := (if sparse_quirk then pc_delta_ub_inv pc else vconst n 0) |} in
     do st <- ruiz_loop (Z.to_nat max_it) scale_cost st0 ;;
     let pc2 := rz_pc st in
     do ci <- qinv (pc_c pc2) ;;
@@ -177,8 +192,8 @@ Definition ruiz_unscale_data (pc : Precond) (d : Data) : res Data :=
 End Ruiz.
 
 (* IdentityPreconditioner: every operation is the identity *)
-Definition scale_data (K : Consts) (pc : Precond) (d : Data) (reuse scale_cost : bool) (max_it : Z) : res (Precond * Data) :=
-  if pc_ident pc then Ok (pc <| pc_nlb := d_nlb d |> <| pc_nub := d_nub d |>, d) else ruiz_scale_data K pc d reuse scale_cost max_it.
+Definition scale_data (K : Consts) (sparse_quirk : bool) (pc : Precond) (d : Data) (reuse scale_cost : bool) (max_it : Z) : res (Precond * Data) :=
+  if pc_ident pc then Ok (pc <| pc_nlb := d_nlb d |> <| pc_nub := d_nub d |>, d) else ruiz_scale_data K sparse_quirk pc d reuse scale_cost max_it.
 Definition unscale_data (pc : Precond) (d : Data) : res Data :=
   if pc_ident pc then Ok d else ruiz_unscale_data pc d.
 
